@@ -628,10 +628,14 @@ class HttpOrigin(Behaviour):
     """HTTP origin: h11 parses what arrives; after the k-th complete request it sends the
     k-th scripted response (list of pieces), then the optional action ('close'/'shutdown_wr')."""
 
-    def __init__(self, responses, then=None, respond=None, sequential=False):
+    def __init__(self, responses, then=None, respond=None, sequential=False, coalesce=None):
         self.responses = responses
         self.then = then or {}
         self.respond = respond
+        # coalesce: responses to requests that arrived together leave in ONE segment (0), or in two segments cut
+        # k bytes after the end of the first response (k > 0) / before it (k < 0) -- response boundaries and
+        # segment boundaries need not coincide
+        self.coalesce = coalesce
         # an ordinary sequential server: it writes a whole response before it reads on (while a response is
         # being sent nothing is read from the connection)
         self.sequential = sequential
@@ -645,6 +649,19 @@ class HttpOrigin(Behaviour):
         conn.h11_error = None
 
     def on_data(self, conn, d):
+        n0 = len(conn.outbox)
+        try:
+            self._on_data(conn, d)
+        finally:
+            new = conn.outbox[n0:]
+            if self.coalesce is not None and len(new) >= 2 and all(a[0] == 'send' for a in new):
+                first = len(new[0][1])
+                whole = b''.join(a[1] for a in new)
+                k = first + self.coalesce
+                conn.outbox[n0:] = [('send', whole)] if self.coalesce == 0 or not (0 < k < len(whole)) else \
+                    [('send', whole[:k]), ('send', whole[k:])]
+
+    def _on_data(self, conn, d):
         import h11
         if conn.h11_error:
             return
